@@ -186,8 +186,14 @@ fn wrap(ty: u8, body: &[u8]) -> Vec<u8> {
 
 /// hello body with an arbitrary session-id length byte (bytes padded so that they exist)
 fn hello_with_sidlen(r: &mut Rng, server: bool, sidlen: u8) -> Vec<u8> {
+    let v = if server { 0x0303 } else { gen::version(r) };
+    hello_with_sidlen_v(r, server, sidlen, v, None)
+}
+/// the same with a chosen version and, optionally, `tail` bytes after the compression field(s) in place of the
+/// extension block (so that the body is long enough whatever a parser does with the over-long session id)
+fn hello_with_sidlen_v(r: &mut Rng, server: bool, sidlen: u8, version: u16, tail: Option<usize>) -> Vec<u8> {
     let mut w = W::new();
-    w.u16(if server { 0x0303 } else { gen::version(r) });
+    w.u16(version);
     w.bytes(&r.bytes(32));
     w.u8(sidlen);
     w.bytes(&r.bytes(sidlen as usize));
@@ -201,8 +207,13 @@ fn hello_with_sidlen(r: &mut Rng, server: bool, sidlen: u8) -> Vec<u8> {
         });
         w.vec8("compression_methods", &[0]);
     }
-    if r.bool() {
-        w.vec16("extensions", &[]);
+    match tail {
+        None => {
+            if r.bool() {
+                w.vec16("extensions", &[]);
+            }
+        }
+        Some(n) => w.bytes(&r.bytes(n)),
     }
     w.b
 }
@@ -394,6 +405,16 @@ pub fn run(ctx: &mut Ctx) {
         must_reject(ctx, "R1", &wrap(1, &b), json!({"sid_len": n, "hello": "client"}));
         let b = hello_with_sidlen(&mut r, true, n);
         must_reject(ctx, "R1", &wrap(2, &b), json!({"sid_len": n, "hello": "server"}));
+        // every supported ServerHello version (SSLv3 has no extension block: the bytes after the compression byte
+        // are then just more body) and every ClientHello version class, with 0 / 2 / 40 / 300 bytes after the fixed fields
+        for v in [0x0300u16, 0x0301, 0x0302, 0x0303] {
+            for tail in [0usize, 2, 40, 300] {
+                let b = hello_with_sidlen_v(&mut r, true, n, v, Some(tail));
+                must_reject(ctx, "R1", &wrap(2, &b), json!({"sid_len": n, "hello": "server", "version": v, "bytes_after_compression": tail}));
+                let b = hello_with_sidlen_v(&mut r, false, n, v, Some(tail));
+                must_reject(ctx, "R1", &wrap(1, &b), json!({"sid_len": n, "hello": "client", "version": v, "bytes_after_compression": tail}));
+            }
+        }
     });
     let n = ctx.tier.pick(16000, 160000);
     ctx.family("R2-R7", n, |ctx, case: &mut Case| {
